@@ -65,6 +65,23 @@ pub proof fn lemma_one_entry_per_index(s: Seq<LogEntry>, a: int, b: int)
 pub enum RaftError { Storage(String) }
 pub type RaftResult<T> = Result<T, RaftError>;
 
+pub broadcast proof fn lemma_filter_by_b<T>(s: Seq<T>, keep: Seq<bool>, pred: spec_fn(T) -> bool)
+    requires keep.len() == s.len(), forall|i: int| 0 <= i < s.len() ==> keep[i] == pred(s[i])
+    ensures #[trigger] filter_by(s, keep) == #[trigger] s.filter(pred)
+{
+    lemma_filter_by(s, keep, pred);
+}
+/// `v.iter().filter(p).cloned().collect::<Vec<_>>()` (A-STD: the Cloned adapter is outside Verus; the wrapper's body is the
+/// original chain): the elements satisfying p, in order (existential verdicts: closure ensures are one-directional)
+pub open spec fn verdicts<'a, T: 'a, P: FnMut(&&'a T) -> bool>(p: P, s: Seq<T>, keep: Seq<bool>) -> bool {
+    keep.len() == s.len() && forall|i: int| #![trigger s[i]] #![trigger keep[i]] 0 <= i < s.len() ==> exists|r: &&'a T| **r == s[i] && p.ensures((r,), keep[i])
+}
+#[verifier::external_body]
+pub fn vec_filter_cloned<'a, T: Clone, P: FnMut(&&'a T) -> bool>(v: &'a Vec<T>, p: P) -> (r: Vec<T>)
+    requires forall|x: &&T| p.requires((x,))
+    ensures exists|keep: Seq<bool>| #[trigger] verdicts(p, v@, keep) && r@ == filter_by(v@, keep)
+{ v.iter().filter(p).cloned().collect() }
+
 // derived Clone of LogEntry: structural (assumed, A-STD)
 impl Clone for LogEntry {
     #[verifier::external_body]
@@ -163,6 +180,16 @@ impl RaftStorage {
             lemma_filter_by(s, keep, above(index));
             lemma_filter_inc(s, above(index));
         }
+//@end
+
+//@fn RaftStorage::get_entries ret=r
+//@ensures
+        r@ == self.logv().filter(|e: LogEntry| e.index >= start && e.index < end),     //#exactly_the_entries_in_range_in_order
+//@replace "log.iter()<NL>            .filter(" => "vec_filter_cloned(log, " :: iterator chain with the Cloned adapter: routed through a wrapper whose body is the same chain
+//@replace ")<NL>            .cloned()<NL>            .collect()" => ")" :: (same chain)
+//@closure vec_filter_cloned#1 (e: &&LogEntry) -> (b: bool) ensures b == (@BODY)
+//@atstart
+        broadcast use lemma_filter_by_b;
 //@end
 
 //@fn RaftStorage::get_snapshot_metadata ret=r
